@@ -112,6 +112,34 @@ def family_oscillation(irf, p_osc, p_mc, pfid=False):
     return spec, params
 
 
+MIXED_POOL = {
+    "pfid": ("mc_pfid", {"type": "pfid", "labels": ["o1", "o2"], "frequencies": ["f.1", "f.2"], "rates": ["g.1", "g.2"]}),
+    "par": ("mc_par", {"type": "decay-parallel", "compartments": ["a", "b"], "rates": ["k.a", "k.b"]}),
+    "seq": ("mc_seq", {"type": "decay-sequential", "compartments": ["q1", "b"], "rates": ["k.q1", "k.q2"]}),
+    "par2": ("mc_par2", {"type": "decay-parallel", "compartments": ["b", "c"], "rates": ["k.c", "k.d"]}),
+    "base": ("mc_base", {"type": "baseline", "dimension": "time"}),
+    "art": ("mc_art", {"type": "coherent-artifact", "order": 2}),
+    "osc": ("mc_osc", {"type": "damped-oscillation", "labels": ["o1", "o3"], "frequencies": ["f.3", "f.4"], "rates": ["g.3", "g.4"]}),
+}
+MIXED_COMBOS = [c for c in itertools.combinations(sorted(MIXED_POOL), 3)]
+MIXED_QUICK = [("par", "pfid", "seq"), ("par", "par2", "pfid"), ("art", "par", "seq"), ("base", "pfid", "seq"), ("osc", "par2", "pfid")]
+
+
+def family_mixed(irf, combo, p_mc, scaled):
+    """Three megacomplexes that share clp labels and differ in index dependence (pfid is always per-index, a
+    baseline never, the others only with a shifted / dispersed IRF), in every declaration order."""
+    mcs = perm_apply([MIXED_POOL[c] for c in combo], p_mc)
+    scales = {"mc_pfid": "sc.1", "mc_par": "sc.2", "mc_seq": "sc.3", "mc_par2": "sc.1", "mc_base": "sc.2", "mc_art": "sc.3", "mc_osc": "sc.2"}
+    d = {"megacomplex": [m for m, _ in mcs]}
+    if scaled:
+        d["megacomplex_scale"] = [scales[m] for m, _ in mcs]
+    spec = {"megacomplex": dict(mcs), "dataset": {"d1": d}}
+    params = [["f.1", 520.0], ["f.2", 580.0], ["g.1", -0.8], ["g.2", -0.3], ["f.3", 55.0], ["f.4", 130.0], ["g.3", 0.8], ["g.4", 0.3],
+              ["k.a", 1.4], ["k.b", 0.4], ["k.c", 0.05], ["k.d", 3.1], ["k.q1", 2.2], ["k.q2", 0.15],
+              ["sc.1", 1.0, {"vary": False}], ["sc.2", 0.7, {"vary": False}], ["sc.3", 1.3, {"vary": False}]]
+    return spec, params
+
+
 def family_spectral(irf, p_shape, p_comp):
     comps = ["s1", "s2", "s3"]
     order = perm_apply(comps, p_comp)
@@ -153,7 +181,7 @@ def family_clp_guide(irf, p_comp):
 
 # ---------------------------------------------------------------- running
 def make_data(rng, spec, nt=40, ng=4, guide=False):
-    t = np.round(np.sort(np.concatenate([[-0.4, 0.0], rng.uniform(-0.4, 12, nt - 2)])), 6)
+    t = np.round(np.sort(np.concatenate([[-0.4, 0.0], rng.uniform(-0.4, 0.0, 6), rng.uniform(0.0, 12, nt - 8)])), 6)
     g = np.array([480.0, 540.0, 590.0, 650.0])[:ng]
     out = {}
     for i, label in enumerate(sorted(spec["dataset"])):
@@ -189,19 +217,28 @@ LABEL_DIMS_SKIP = ("component_",)
 def compare_results(base, twin, rec, ctx, tag):
     """All variables of all datasets by label."""
     bad = []
+    rank_deficient = False
     for label in base.data:
         a, b = base.data[label], twin.data[label]
         # clps of an ill-conditioned matrix are only determined up to kappa * rounding
         mm = np.asarray(a["matrix"].values, dtype=float)
         mm = mm.reshape(-1, mm.shape[-1]) if mm.ndim == 3 else mm
-        sv = np.linalg.svd(mm[: max(mm.shape[0] // (a["matrix"].shape[0] if a["matrix"].ndim == 3 else 1), mm.shape[1])], compute_uv=False)
-        kap = float(sv[0] / sv[-1]) if sv[-1] > 0 else float("inf")
+        m3 = np.asarray(a["matrix"].values, dtype=float)
+        kap = 0.0
+        for blk in (m3 if m3.ndim == 3 else [m3]):
+            sv = np.linalg.svd(blk, compute_uv=False)
+            kap = max(kap, float(sv[0] / sv[-1]) if sv[-1] > 0 else float("inf"))
         kap_factor = max(1.0, kap / 1e5)
         clp_derived = {"clp", "baseline", "coherent_artifact_associated_spectra"}
-        if not np.isfinite(kap) or kap > 1e12:
-            rec.skip("dataset matrix numerically rank deficient: clp-derived outputs not comparable")
-            continue
+        deficient = not np.isfinite(kap) or kap > 1e12
+        if deficient:
+            # the linear solve (and with it cost, residual, clps, spectra) is outside C01/C06 for a rank-deficient
+            # matrix; what a label denotes in the model matrix is still compared
+            rec.skip("dataset matrix numerically rank deficient: only model-matrix outputs compared")
+            rank_deficient = True
         for name in a.data_vars:
+            if deficient and not (name in ("matrix", "species_concentration") or name.endswith(("_cos", "_sin", "_concentration", "_response"))):
+                continue
             if name not in b:
                 bad.append((f"missing-variable:{name}", f"{label}: variable {name} only present for one declaration order"))
                 continue
@@ -251,11 +288,11 @@ def compare_results(base, twin, rec, ctx, tag):
                         bad.append((f"coord:{cname}", f"{label}: coordinate {cname} by label differs: {ca.values} vs {cb.values}"))
                 except Exception as e:  # noqa
                     bad.append((f"coord:{cname}", f"{label}: {e}"))
-    if abs(float(base.cost) - float(twin.cost)) > 1e-7 * max(abs(float(base.cost)), 1e-12):
+    if not rank_deficient and abs(float(base.cost) - float(twin.cost)) > 1e-7 * max(abs(float(base.cost)), 1e-12):
         bad.append(("cost", f"cost {float(base.cost)!r} vs {float(twin.cost)!r}"))
     pa = sorted(float(x) for grp in (base.additional_penalty or []) for x in np.atleast_1d(grp))
     pb = sorted(float(x) for grp in (twin.additional_penalty or []) for x in np.atleast_1d(grp))
-    if len(pa) != len(pb) or any(abs(u - v) > 1e-7 * max(abs(u), 1e-12) for u, v in zip(pa, pb)):
+    if not rank_deficient and (len(pa) != len(pb) or any(abs(u - v) > 1e-7 * max(abs(u), 1e-12) for u, v in zip(pa, pb))):
         bad.append(("penalties", f"{pa} vs {pb}"))
     seen = set()
     for mech, detail in bad:
@@ -317,6 +354,10 @@ def plan(tier, seed):
     for irf in ("gaussian", "shifted", "dispersed"):
         fams.append(("pfid", irf))
     fams += [("spectral", "none"), ("spectral", "gaussian"), ("clp_guide", "none")]
+    combos = MIXED_QUICK if tier == "quick" else MIXED_COMBOS
+    for k, combo in enumerate(combos):
+        for irf in (("gaussian", "shifted") if tier == "thorough" else (("gaussian",) if k % 2 == 0 else ("shifted",))):
+            fams.append(("mixed:" + "+".join(combo), irf))
     return [{"shard": i, "family": f, "irf": irf, "nperm": {"quick": 10, "thorough": 200}[tier]} for i, (f, irf) in enumerate(fams)]
 
 
@@ -338,6 +379,10 @@ def twins(family, irf, rng, nperm):
     elif family == "spectral":
         combos = [(a, c) for a in p3 for c in p3]
         build = lambda a, c: family_spectral(irf, a, c)  # noqa: E731
+    elif family.startswith("mixed:"):
+        combo = tuple(family.split(":")[1].split("+"))
+        combos = [(c, sc) for sc in (True, False) for c in p3]
+        build = lambda c, sc: family_mixed(irf, combo, c, sc)  # noqa: E731
     elif family == "two_datasets":
         combos = [(a, c) for a in p2 for c in p3]
         build = lambda a, c: family_two_datasets(irf, a, c)  # noqa: E731
@@ -346,11 +391,11 @@ def twins(family, irf, rng, nperm):
         build = lambda a: family_clp_guide(irf, a)  # noqa: E731
     ident = combos[0]
     rest = combos[1:]
-    if len(rest) > nperm:
+    if len(rest) > nperm and not family.startswith("mixed:"):
         rest = [rest[i] for i in sorted(rng.choice(len(rest), nperm, replace=False))]
     for c in [ident] + rest:
         spec, params = build(*c)
-        out.append(([list(x) for x in c], spec, params))
+        out.append(([list(x) if isinstance(x, (tuple, list)) else x for x in c], spec, params))
     return out
 
 
@@ -376,14 +421,14 @@ def run_shard(spec, rec):
             rec.violation(f"{family}:raises:{type(e).__name__}:{where}", ctx, f"{type(e).__name__}: {str(e)[:300]}")
             rec.case((family, irf, str(perm)), False)
             continue
-        if base is None:
+        if base is None or (family.startswith("mixed:") and perm[0] == [0, 1, 2]):
             base = res
             check_composition(mspec, params, irf, data, rec, ctx)
-            rec.case((family, irf, "identity"), False, sample=ctx, features=[f"family={family}", f"irf={irf}"])
+            rec.case((family, irf, "identity", str(perm)), False, sample=ctx, features=[f"family={family}", f"irf={irf}"])
             continue
         rec.count("twins_compared")
         compare_results(base, res, rec, ctx, family)
-        if i % 4 == 0:
+        if i % 4 == 0 or family.startswith("mixed:"):
             check_composition(mspec, params, irf, data, rec, ctx)
         rec.case((family, irf, str(perm)), True, features=[f"family={family}", f"irf={irf}"])
 
